@@ -299,16 +299,16 @@ def c09_filter(v):
     k = v['key']
     if v.get('unit') == 'c13-accessors' and k in ('at', 'grid.at', 'absoluteFromRelative', 'relativeFromAbsolute', 'intervalIndexFromAbsolute', 'front', 'back'):
         return True   # "bounds-checked accessors throw for every index outside the view" is part of C09's statement
-    return k.startswith('crash:') or k in ('uninit', 'divzero') or k.endswith(':solver-index') or k == 'solver-index' or k.endswith('invalid-result')
+    return k.startswith('crash:') or k in ('divzero',) or k.endswith(':solver-index') or k == 'solver-index' or k.endswith('invalid-result')
 
 
 CHECKS['C09'] = dict(
     title='No operation touches memory outside its objects or runs into undefined behaviour',
     level='exploration',
     engine='E1/E2/E3 under sanitizers',
-    technique='the bounded-exhaustive input, program and history spaces of the other checks re-executed on the real code built with AddressSanitizer + UndefinedBehaviorSanitizer (no recovery) + libstdc++ debug mode (checked iterators and subscripts) and the poisoned exact scalar as uninitialised-read detector; plus an exhaustive sweep of the bounds-checked accessors over index values incl. the extremes of size_t',
-    level_text='Every case of the quick (thorough: thorough for the cheap ones, plus all two-node expression trees) spaces of C01-C08, C10-C13, C15, C17 runs once more under ASan+UBSan+_GLIBCXX_DEBUG; a sanitizer report, a debug-mode assertion, a signal, a read of a default-constructed (uninitialised) scalar, a division by zero or an out-of-range solver access is a violation and names the case in flight. Checked accessors (Grid::at, Support::at, absoluteFromRelative, relativeFromAbsolute, intervalIndexFromAbsolute) are swept over every window x every index in {0..n+2, 2^63-1..2^63+1, 2^64-1-k, values that wrap start+index}.',
-    level_note='Trusted: the sanitizer runtimes of g++ 12, libstdc++ debug mode. Only executed paths are checked; MSan is not available (no instrumented libstdc++), replaced by the poisoned scalar, which sees every T-typed read but not reads of uninitialised indices. Functional mismatches found by these harnesses belong to their own properties and are ignored here (counted in counters).',
+    technique='the bounded-exhaustive input, program and history spaces of the other checks re-executed on the real code built with AddressSanitizer + UndefinedBehaviorSanitizer (no recovery) + libstdc++ debug mode (checked iterators and subscripts); plus an exhaustive sweep of the bounds-checked accessors over index values incl. the extremes of size_t',
+    level_text='Every case of the quick (thorough: thorough for the cheap ones, plus all two-node expression trees) spaces of C01-C08, C10-C13, C15, C17 runs once more under ASan+UBSan+_GLIBCXX_DEBUG; a sanitizer report, a debug-mode assertion, a signal, a division by zero or an out-of-range solver access is a violation and names the case in flight. Checked accessors (Grid::at, Support::at, absoluteFromRelative, relativeFromAbsolute, intervalIndexFromAbsolute) are swept over every window x every index in {0..n+2, 2^63-1..2^63+1, 2^64-1-k, values that wrap start+index}.',
+    level_note='Trusted: the sanitizer runtimes of g++ 12, libstdc++ debug mode. Only executed paths are checked; MSan is not available (no instrumented libstdc++); reads of default-constructed scalars are seen by the poisoned exact scalar but reported under C19 only, because the archetype cannot tell 'T x;' from the well-defined 'T{}'. Functional mismatches found by these harnesses belong to their own properties and are ignored here (counted in counters).',
     units=c09_units,
     viol_filter=c09_filter,
     deadline=dict(quick=900, thorough=2700),
@@ -387,4 +387,37 @@ CHECKS['C16'] = dict(
     bounds=dict(quick='375 grids; builds g++ {-O0,-O2} x self-checks {off,on}', thorough='builds {g++, clang++} x {-O0,-O1,-O2,-O3} x {off,on}'),
     guards=dict(classes=['gen:p0', 'gen:p6', 'ops'], counters=['comparisons', 'chk_on_off_hash_pairs_compared']),
     assumptions=['inputs outside the alphabet are not covered'],
+)
+
+
+def c19_units(tier):
+    th = tier == 'thorough'
+    F = ['-DVF_STRICT']
+    us = [unit('instantiate', 'checks/c19_instantiate.cpp', 'exact', shards=1, kind='compile_is_verdict')]
+    for name, src in [('c01', 'checks/c01_generator.cpp'), ('c02', 'checks/c02_eval.cpp'), ('c03', 'checks/c03_arith.cpp'), ('c04', 'checks/c04_primitive.cpp'),
+                      ('c06', 'checks/c06_bilinear.cpp'), ('c07', 'checks/c07_linear.cpp'), ('c08', 'checks/c08_grids.cpp'), ('c11', 'checks/c11_validation.cpp'),
+                      ('c12', 'checks/c12_interp.cpp'), ('c13', 'checks/c13_support.cpp'), ('c15', 'checks/c15_predicates.cpp')]:
+        us.append(unit(name + '-strict', src, 'exact', flags=F, kind='compile_is_verdict'))
+    us.append(unit('c10-pool-strict', 'checks/c10_pool.cpp', 'exact', shards=1, flags=F, args=['--prop', 'C10', '--levels', '4' if th else '3', '--levels2', '3'], kind='compile_is_verdict'))
+    for u in c05_units(tier, 'exact', 'C19', [('k1', 12), ('fixed', 2)] + ([('k2', 160)] if th else [])):
+        u['name'] = 'c05-' + u['name'] + '-strict'
+        u['flags'] = F
+        u['kind'] = 'compile_is_verdict'
+        us.append(u)
+    return us
+
+
+CHECKS['C19'] = dict(
+    title='The scalar type needs only the documented operations',
+    level='exploration',
+    engine='instantiation matrix + E1/E2/E3 on the strict archetype',
+    technique='enumeration of configurations: every public class template is explicitly instantiated and every function/operator template is called with a strict scalar archetype (GMP rational offering exactly the documented operations, explicit construction from int only); compile failure is the violation; the bounded-exhaustive exact checks of the other properties are then re-run on that archetype',
+    level_text='vf::Q offers default/copy construction, explicit Q(int), + - * / and compound forms, unary minus and the six comparisons - nothing else (no implicit conversions, no <cmath>, no numeric_limits, no streaming). All core templates for orders 0..4 are explicitly instantiated with it (all non-template members), and the harnesses of C01-C08, C10-C13, C15 (incl. 214 expression trees with scalars of type Q and int; thorough 10302 trees) are compiled and run with it: every result must still equal the exact reference.',
+    level_note='The deciding step of the compile half is the compiler\'s type check over an enumerated instantiation set (bounded enumeration of configurations, not of behaviours). Paths in if-constexpr branches not selected by the enumerated orders are not type-checked. Trusted: g++ 12.',
+    units=c19_units,
+    report_uninit=True,
+    rule='cases are those of the listed harnesses, executed with the strict archetype as scalar type; non-trivial as defined there. counters.units_compiled = translation units that type-checked against the archetype.',
+    bounds=dict(quick='22 class-template instantiations; 12 harnesses + 14 expression-tree units on vf::Q', thorough='adds 160 units with all two-node expression trees'),
+    guards=dict(classes=['tree:with-factor', 'mul:intervalxinterval:overlaps', 'common:intervalxinterval:overlaps', 'solved:default:whole', 'valid:functions:interior-repeat', 'Grid:invalid']),
+    assumptions=['scalar types satisfying the documented requirements behave like the archetype as far as overload resolution is concerned'],
 )
